@@ -1058,4 +1058,168 @@ theorem gdef_lig_carets_preserved {p : LPlan} (hp : PlanOk' p) {g : GdefIn} {o :
       obtain ⟨h1, _, h3⟩ := lig_caret_list_subset hp hl hy
       exact ⟨h1, h3⟩
 
+/-! ### mark glyph sets -/
+
+/-- well-formed MarkGlyphSets: every coverage table readable and as the specification requires -/
+def MarkSetsOk (p : LPlan) (m : MarkSetsIn) : Prop :=
+  ∀ s ∈ m.sets, ∃ c, s = some c ∧ CovOk p c
+
+theorem survive_iff_used {p : LPlan} (hp : PlanOk' p) {c : Coverage} (hc : CovOk p c) :
+    setUsed p (some c) = (survive p (some c)).isSome := by
+  have hsmall : (c.glyphs.filterMap p.get).length < 65536 := by
+    have h1 := kept_sorted hp.toPlanOk hc.sorted
+    have := sorted_length_le h1 65535 (by
+      intro x hx
+      obtain ⟨g, _, e⟩ := List.mem_filterMap.mp hx
+      exact hp.newLt' _ ((hp.get_iff g x).mp e))
+    omega
+  obtain ⟨hemp, hsucc⟩ := coverage_empty_iff_no_kept_glyph hp.toPlanOk hc hsmall
+  by_cases hu : setUsed p (some c) = true
+  · rw [hu]
+    simp only [setUsed, List.any_eq_true, List.contains_iff_mem, decide_eq_true_eq] at hu
+    obtain ⟨g, hg, hgs⟩ := hu
+    have hgs' : g ∈ p.glyphset := by simpa using hgs
+    obtain ⟨n, hn⟩ := hp.mem_glyphset hgs'
+    obtain ⟨w, hw⟩ := hsucc ⟨g, hg, by simp [kept, hn]⟩
+    simp [survive, hw]
+  · have hall : ∀ g ∈ c.glyphs, p.get g = none := by
+      intro g hg
+      cases hgn : p.get g with
+      | none => rfl
+      | some n =>
+        exfalso; apply hu
+        simp only [setUsed, List.any_eq_true]
+        exact ⟨g, hg, by simpa using (hp.get_lt hgn).2.2⟩
+    have := hemp.mpr hall
+    simp [survive, this]
+    simpa using hu
+
+/-- **gdef_mark_glyph_sets_preserved**: the written MarkGlyphSets are the original sets that have at
+least one glyph kept for layout, in their original order (format unchanged); a retained set `i`
+becomes set `i' = number of retained sets before i` — which is what `plan.used_mark_sets_map`
+records for it — and membership is unchanged: a kept glyph is in the original set `i` iff its image
+is in the subset's set `i'`, and no other id is; a set without kept glyph is dropped and is not in
+`used_mark_sets_map`.  (NB: the lookups of the passed-through GSUB / GPOS tables keep their OLD
+markFilteringSet indices — see `passthrough_*` below and the known finding.) -/
+theorem gdef_mark_glyph_sets_preserved {p : LPlan} (hp : PlanOk' p) {g : GdefIn} {o : GdefOut}
+    {m : MarkSetsIn} (hg : g.markGlyphSets = .ok m) (hm : MarkSetsOk p m)
+    (h : subsetGdefSem p g = .ok o) {fmt : Nat} {ws : List CovW}
+    (ho : o.markGlyphSets = some (fmt, ws)) :
+    fmt = m.format ∧ ws = m.sets.filterMap (survive p) ∧
+    ∀ i c, m.sets[i]? = some (some c) →
+      ((∀ gl ∈ c.glyphs, p.get gl = none) →
+        survive p (some c) = none ∧ (usedMarkSetsMap p g).lookup i = none) ∧
+      ((∃ gl ∈ c.glyphs, kept p gl = true) →
+        ∃ w, ws[((m.sets.take i).filterMap (survive p)).length]? = some w ∧
+          (usedMarkSetsMap p g).lookup i = some ((m.sets.take i).filterMap (survive p)).length ∧
+          (∀ gl n, p.get gl = some n → (w.toCoverage.get n).isSome = (c.get gl).isSome) ∧
+          (∀ n, (∀ gl ∈ c.glyphs, p.get gl ≠ some n) → w.toCoverage.get n = none)) := by
+  have hf := (gdef_fields h).2.2.2.2.1
+  unfold setsPart at hf
+  have h2 : g.minor ≥ 2 := by
+    apply Classical.byContradiction
+    intro hn
+    simp only [hn, ↓reduceIte, pure, Except.pure, Except.ok.injEq] at hf
+    rw [ho] at hf; cases hf
+  simp only [h2, ↓reduceIte, hg, ho] at hf
+  rcases optSem_ok hf with ⟨e1, _⟩ | ⟨x, e1, hh⟩
+  · cases e1
+  · injection e1 with e1; subst e1
+    rcases hh with ⟨_, e2⟩ | ⟨y, hy, e2⟩
+    · cases e2
+    · injection e2 with e2; subst e2
+      unfold markSetsSem at hy
+      cases hgo : markSetsGo p m.sets with
+      | error e => simp [hgo] at hy
+      | ok sets =>
+        simp only [hgo] at hy
+        split at hy
+        · cases hy
+        · simp only [pure, Except.pure, Except.ok.injEq, Prod.mk.injEq] at hy
+          obtain ⟨e1, e2⟩ := hy
+          subst e1; subst e2
+          have hws := markSetsGo_spec p m.sets sets hgo
+          refine ⟨rfl, hws, ?_⟩
+          intro i c hi
+          obtain ⟨c', hc', hcov⟩ := hm (some c) (List.mem_of_getElem? hi)
+          injection hc' with hc'; subst hc'
+          have hsmall : (c.glyphs.filterMap p.get).length < 65536 := by
+            have h1 := kept_sorted hp.toPlanOk hcov.sorted
+            have := sorted_length_le h1 65535 (by
+              intro z hz
+              obtain ⟨gl, _, e⟩ := List.mem_filterMap.mp hz
+              exact hp.newLt' _ ((hp.get_iff gl z).mp e))
+            omega
+          have hnn : ∀ s ∈ m.sets, s ≠ none := by
+            intro s hs e
+            obtain ⟨c'', hc'', _⟩ := hm s hs
+            rw [e] at hc''; cases hc''
+          have hused := survive_iff_used hp hcov
+          have hcnt : ((m.sets.take i).filter (setUsed p)).length =
+              ((m.sets.take i).filterMap (survive p)).length := by
+            apply filter_filterMap_length
+            intro s hs
+            obtain ⟨c'', hc'', hcov''⟩ := hm s (List.mem_of_mem_take hs)
+            subst hc''
+            exact survive_iff_used hp hcov''
+          obtain ⟨hemp, hsucc⟩ := coverage_empty_iff_no_kept_glyph hp.toPlanOk hcov hsmall
+          constructor
+          · intro hall
+            have he := hemp.mpr hall
+            refine ⟨by simp [survive, he], ?_⟩
+            -- not used: the index is not a key of the map
+            have hnu : setUsed p (some c) = false := by rw [hused]; simp [survive, he]
+            simp only [usedMarkSetsMap, usedMarkSets, hg]
+            -- keys of the map are indices of used sets
+            have hkeys : ∀ (sets : List (Option Coverage)) (k b j : Nat),
+                (∀ s ∈ sets, s ≠ none) →
+                (∀ t cc, sets[t]? = some (some cc) → k + t = j → setUsed p (some cc) = false) →
+                ((usedGo p sets k).zipIdx b).lookup j = none := by
+              intro sets
+              induction sets with
+              | nil => intro k b j _ _; rfl
+              | cons s rest ih =>
+                intro k b j hall' hj
+                cases s with
+                | none => exact absurd rfl (hall' none (List.mem_cons_self ..))
+                | some c0 =>
+                  have hr := ih (k + 1) b j (fun s hs => hall' s (List.mem_cons_of_mem _ hs))
+                    (fun t cc ht e => hj (t + 1) cc (by simpa using ht) (by omega))
+                  have hr' := ih (k + 1) (b + 1) j (fun s hs => hall' s (List.mem_cons_of_mem _ hs))
+                    (fun t cc ht e => hj (t + 1) cc (by simpa using ht) (by omega))
+                  by_cases hu0 : setUsed p (some c0) = true
+                  · have : ¬ j = k := by
+                      intro e
+                      have := hj 0 c0 (by simp) (by omega)
+                      rw [hu0] at this; cases this
+                    have ne : (j == k) = false := by simp [this]
+                    simp [usedGo, hu0, List.zipIdx_cons, List.lookup_cons, ne, hr']
+                  · simp [usedGo, hu0, hr]
+            apply hkeys m.sets 0 0 i hnn
+            intro t cc ht e
+            have : t = i := by omega
+            subst this
+            rw [hi] at ht; injection ht with ht; injection ht with ht
+            subst ht; exact hnu
+          · rintro ⟨gl, hgl, hk⟩
+            obtain ⟨w, hw⟩ := hsucc ⟨gl, hgl, hk⟩
+            have hsv : survive p (some c) = some w := by simp [survive, hw]
+            have hu : setUsed p (some c) = true := by rw [hused, hsv]; rfl
+            refine ⟨w, ?_, ?_, ?_, ?_⟩
+            · rw [hws]; exact filterMap_getElem (survive p) m.sets i (some c) w hi hsv
+            · simp only [usedMarkSetsMap, usedMarkSets, hg]
+              have := usedGo_lookup p m.sets 0 0 i c hnn hi hu
+              simp only [Nat.zero_add] at this
+              rw [this, hcnt]
+            · intro gl' n hgn
+              obtain ⟨h1, _, h3⟩ := coverage_subset_get hp.toPlanOk hcov hsmall hw
+              rw [h1 gl' n hgn, hcov.get_eq]
+              cases hidx : indexIn gl' c.glyphs with
+              | none => rw [indexIn_filter_none (kept p) c.glyphs gl' hidx]
+              | some k =>
+                rw [indexIn_filter (kept p) c.glyphs gl' k hidx (by simp [kept, hgn])]
+                rfl
+            · intro n hn
+              exact (coverage_subset_get hp.toPlanOk hcov hsmall hw).2.2 n hn
+
 end FontVerif.C17Layout
